@@ -89,7 +89,7 @@ func checkC20(p *Prog, l *Ledger) {
 		case "line":
 			switch {
 			case isRun(ev):
-				if len(ev.Args) != 3 || ev.Args[2] != "true" {
+				if len(ev.Args) != 3 || runReplFlag(p, ev.Args[2]) != "true" {
 					return "!the REPL runs a line with isRepl=" + ev.Args[len(ev.Args)-1]
 				}
 				return "ran|"
